@@ -646,6 +646,9 @@ def choose_cfgs(g, k, tier):
         cfgs = [req, opt] if top else [opt if alt else req]
     else:
         cfgs = [req, opt, ("act1", "ctl1", 1, 0, "lf_crlf") if alt else ("act0", "ctl0", 0, 1, "lf_crlf")] if top else [("act1", "ctl1", 1, 1, "lf_crlf") if alt else req, opt]
+    if g.tags & {"rematch", "minus"}:
+        # rematch.hpp has a separate code path for lazily tracked inputs
+        cfgs = cfgs + [("act0", "ctl0", 1, 1, "lf_crlf", "lazy")]
     if g.tags & set(EOL_SENSITIVE):
         cfgs = cfgs + [("act0", "ctl0", 1, 1, "crlf"), ("act0", "ctl0", 1, 0, "cr_crlf")]
         if tier == "thorough":
